@@ -48,7 +48,7 @@ const (
 
 type c05Entry struct {
 	Path     string `json:"path"`
-	Kind     string `json:"kind"`                // "f" file, "d" dir, "l" symlink, "?" other
+	Kind     string `json:"kind"`                // "f" file, "d" dir, "l" symlink, "s" socket, "c" character device (null), "?" other
 	Mode     uint32 `json:"mode"`                // permission bits + setuid/setgid/sticky as os.FileMode bits
 	Data     string `json:"data,omitempty"`      // content (files) or link text with the tree root written as $ROOT
 	Mtime    int64  `json:"mtime"`               // seconds; -1 = written by the clock during this step (NOW)
@@ -57,6 +57,8 @@ type c05Entry struct {
 }
 
 type c05State []c05Entry
+
+const c05NullDev = 1<<8 | 3 // makedev(1, 3)
 
 // c05Unpriv: the process is not root, so the snapshot has to open up directories it cannot read.
 var c05Unpriv = os.Getuid() != 0
@@ -158,6 +160,10 @@ func c05Snap(root string) c05State {
 				e.Kind = "l"
 				t, _ := os.Readlink(full)
 				e.Data = c05Unroot(t, root)
+			case fi.Mode()&os.ModeSocket != 0:
+				e.Kind = "s"
+			case fi.Mode()&os.ModeCharDevice != 0 && st != nil && st.Rdev == c05NullDev:
+				e.Kind = "c"
 			default:
 				e.Kind = "?"
 				e.Data = fi.Mode().String()
@@ -302,6 +308,16 @@ func c05Build(root string, st c05State) error {
 			}
 		case "l":
 			if err := os.Symlink(c05Expand(e.Data, root), p); err != nil {
+				return err
+			}
+		case "s":
+			// a unix-domain socket node (nobody listens): S_IFSOCK shares a bit with S_IFDIR in the wire mode word
+			if err := syscall.Mknod(p, syscall.S_IFSOCK|0o600, 0); err != nil {
+				return err
+			}
+		case "c":
+			// a character device node equal to /dev/null (root only)
+			if err := syscall.Mknod(p, syscall.S_IFCHR|0o600, c05NullDev); err != nil {
 				return err
 			}
 		default:
@@ -898,6 +914,8 @@ func c05Seeds() []c05State {
 		{d("a", 0o755, 1), f("a/x", "xxxxx", 0o600, 2), l("b", "a", 3), f("c", "cc", 0o644, 4)},               // symlink to a directory
 		{f("a", "aaaa", 0o644, 1), l("b", "a", 2), l("c", "nope", 3)},                                         // symlink to a sibling file, dangling symlink
 		{d("a", 0o755, 1), d("a/x", 0o755, 2), d("b", 0o750, 3), l("b/x", "../a", 4), l("c", "$ROOT/a/x", 5)}, // nested directories, symlinks inside, absolute target
+		{d("a", 0o755, 1), {Path: "a/x", Kind: "s", Mode: 0o644, Mtime: c05T0 + 2, Group: -1}, {Path: "b", Kind: "s", Mode: 0o600, Mtime: c05T0 + 3, Group: -1},
+			{Path: "c", Kind: "c", Mode: 0o666, Mtime: c05T0 + 4, Group: -1}}, // other file kinds: sockets (inside a directory and at the top), a character device
 	}
 }
 
